@@ -572,9 +572,17 @@ def specialise_rx_helpers(mod, covered):
                 pn = h.args.args[j].arg
                 if pn in T.assigned_names(h.body) or pn in mod.consts or pn in mod.rx or pn in mod.funcs or pn in mod.opaque:
                     raise T.Refuse('%s: the pattern parameter %s of %s is assigned or clashes with a top-level name' % (T.LANG.src_rel, pn, h.name))
+                # the pattern object is created anew by the caller for this one call and touched by nothing else there (the local name occurs
+                # exactly twice: its binding and this argument), so inside the helper it is a FRESH object: lastIndex = 0 at the first exec
+                uses = sum(1 for n in ast.walk(fn) if isinstance(n, ast.Name) and n.id == a.id)
+                if uses != 2:
+                    raise T.Refuse('%s: the pattern object %s handed to %s is used elsewhere in %s' % (T.LANG.src_rel, a.id, h.name, cn))
                 del h.args.args[j]
                 del call.args[j]
                 mod.rx[pn] = pat
+                if not hasattr(mod, 'rx_fresh'):
+                    mod.rx_fresh = set()
+                mod.rx_fresh.add(pn)
                 break
 
 
